@@ -15,8 +15,11 @@ from sim import simfs
 
 DTS = (0.002, 0.5, 1.0, 60.0, 2592000.0)
 T0S = (1.5, 1000.0, 1.7e9)
+# every top-level name not starting with a dot is a layer, whatever its
+# suffix: editor / package-manager leftovers sort right after their base name
 DIR_FILE_POOL = ('a.yaml', 'B.yaml', '10.yaml', '2.yaml', 'z.conf', 'README',
-                 'b.json')
+                 'b.json', 'a.yaml~', '10.yaml.orig', 'B.yaml.bak',
+                 'z.conf.rpmsave')
 DOT_FILE = '.h.yaml'
 SUBDIR = 'sub.yaml'          # a sub-directory that looks like a file name
 SUBDIR_FILE = 'sub.yaml/zz.yaml'
@@ -252,6 +255,10 @@ def gen_layout(rng, w, flavour):
     # leaves enforce() by exception
     c['do_raise'] = rng.random() < 0.25
     c['via'] = rng.choice(('config_dir', 'config_file'))
+    # the service builds its Enforcer first and applies its option
+    # overrides afterwards (before anything is loaded): the library reads
+    # the options live, so the order must not matter
+    c['options_after_ctor'] = rng.random() < 0.2
     if flavour == 'c09':
         pf = {'how': rng.choice(('untouched', 'set_defaults', 'config_file',
                                  'set_override')),
@@ -706,12 +713,17 @@ class DiskSim:
             conf.set_override('policy_dirs',
                               [self.cfg_dir(d) for d in c['policy_dirs']],
                               group='oslo_policy')
+        if not c.get('options_after_ctor'):
+            self.apply_flag_options(conf)
+        return conf
+
+    def apply_flag_options(self, conf):
+        c = self.w['conf']
         if not c['enforce_new_defaults']:
             conf.set_override('enforce_new_defaults', False,
                               group='oslo_policy')
         if not c['enforce_scope']:
             conf.set_override('enforce_scope', False, group='oslo_policy')
-        return conf
 
     def build_defaults(self):
         return build_defaults(self.w['defaults'])
@@ -728,6 +740,9 @@ class DiskSim:
         if not pf['fallback']:
             kw.setdefault('fallback_to_json_file', False)
         e = policy.Enforcer(conf, **kw)
+        if self.w['conf'].get('options_after_ctor'):
+            self.apply_flag_options(conf)
+            self.hit('knob:options_set_after_construction')
         if defaults is None:
             objs = self.build_defaults()
             if not include_late:
